@@ -35,7 +35,9 @@ import (
 	"verifharness/mbt"
 )
 
-const maxReported = 8
+const maxPerKey = 2 // mismatches reported per failure class and driver process
+
+const maxReported = 4 // mismatches re-run and reported per driver process (the rest is counted)
 
 var genesisPkgs = []string{
 	"gno.land/p/nt/avl/v0",
@@ -480,16 +482,18 @@ func runSet(r *runner, set *bset, accts []*appenv.Account) {
 		}
 	}
 	failed := map[string]bool{}
+	perKey := map[string]int{}
 	unreported, lines, okc := 0, 0, 0
 	report := func(g *group, fl *failure) {
 		id := fmt.Sprintf("%d/%s", g.beh, g.e.name)
 		if failed[id] {
 			return
 		}
-		if len(failed) >= maxReported {
+		if len(failed) >= maxReported || perKey[fl.key] >= maxPerKey {
 			unreported++
 			return
 		}
+		perKey[fl.key]++
 		// re-run alone, fresh token, own transaction
 		g1 := compile(0, g.beh, set.behs[g.beh], set.na, g.e)
 		out, errs := r.run([]*group{g1})
